@@ -6,6 +6,7 @@ import (
 	"fmt"
 	"sort"
 	"strings"
+	"time"
 
 	"verifengine/core"
 )
@@ -310,7 +311,7 @@ func coffScenario(tier string, wantC08, wantC09 bool) *core.Scenario {
 	if tier != "thorough" {
 		namings = []int{1, 3, 5}
 		files = []int{0, 4, 5}
-		bodies = []string{"routines", "large"}
+		bodies = []string{"routines", "large", "empty", "one"}
 	}
 	return &core.Scenario{
 		Name: "coff_programs", Bound: -1,
@@ -323,7 +324,7 @@ func coffScenario(tier string, wantC08, wantC09 bool) *core.Scenario {
 			sub := subsets[c.Pick("subset", len(subsets))]
 			pl := c.Pick("placement", 3)
 			ex := c.Pick("extras", 4)
-			if tier != "thorough" && body == "large" && (pl != 0 || ex != 0 || len(sub) > 2) {
+			if tier != "thorough" && body != "routines" && (pl != 0 || ex != 0 || len(sub) > 2) {
 				return nil // quick tier: the >64 KiB body only with the simplest GLOBAL arrangements
 			}
 			cc := buildCoffCase(body, coffNamings[ni], sub, pl, ex, fi)
@@ -338,9 +339,48 @@ func coffScenario(tier string, wantC08, wantC09 bool) *core.Scenario {
 	}
 }
 
+// c08Leftover: objects written over an existing, longer file must still be structurally valid
+// (in particular the string table must end at the end of the file).
+func c08Leftover(r *core.Run, tier string) {
+	t0 := time.Now()
+	subsets := orderedSubsets()
+	var n, bad int64
+	live := r.Cfg.Pool.NewLive()
+	defer live.Close()
+	for _, body := range []string{"empty", "one", "routines"} {
+		for ni := range coffNamings {
+			for _, si := range []int{0, 1, 5, 20, 64} {
+				cc := buildCoffCase(body, coffNamings[ni], subsets[si], 0, 0, 4)
+				for _, pre := range [][]byte{bytes.Repeat([]byte{0xEE}, 70000), bytes.Repeat([]byte{0x00}, 3000)} {
+					res, ok := live.Do(core.Op{Src: []byte(cc.src), HasPre: true, Pre: pre})
+					n++
+					if !ok {
+						live = r.Cfg.Pool.NewLive()
+						continue
+					}
+					v := judgeCoff(cc, []*core.Result{res, {Out: nil}}, true, false)
+					for _, f := range v.Fails {
+						if f.Facet == "run" {
+							continue
+						}
+						bad++
+						r.AddFail("leftover_destination", fmt.Sprintf("body=%s naming=%d subset=%v over %d old bytes", body, ni, subsets[si], len(pre)),
+							map[string]string{"body": body, "naming": fmt.Sprint(ni)}, []string{cc.src}, f)
+					}
+					r.AddNT(fmt.Sprintf("leftover|%s|%d|%d|%d", body, ni, si, len(pre)))
+				}
+			}
+		}
+	}
+	r.AddSample(map[string]any{"leftover": "a WCOFF object written over a 70000-byte file of 0xEE"})
+	r.AddCustom("leftover_destination", "3 bodies x 7 namings x 5 GLOBAL subsets, each object written over an existing longer file (70000 x 0xEE, 3000 x 0x00): the object must still satisfy every structural rule (string table ends at end of file)",
+		nil, n+1, n, n, n, 1, true, time.Since(t0).Seconds())
+}
+
 func init() {
 	register(&Property{
 		ID:        "C08",
+		Custom:    c08Leftover,
 		Scenarios: func(tier string) []*core.Scenario { return []*core.Scenario{coffScenario(tier, true, false)} },
 		Assumptions: []string{
 			"structure is judged by an independent strict COFF reader written from the PE/COFF specification (all offsets/counts bounds-checked) and additionally by Go's debug/pe",
